@@ -76,6 +76,13 @@ def operations(tier):
         dict(name='main-two-files', text='tri', opts=[], main=['pair', 'tri']),
         dict(name='ligand-LIG-amide', text='lig_a', opts=[]),
         dict(name='ligand-LIG-amine', text='lig_b', opts=[]),
+        # two parameter files that are written to the same path one after the other; a structure read as a member of a ZIP archive
+        # that is re-written under the same name; a caller who edits the Parameters object a finished run returned
+        dict(name='shared-cfg-path-1', text='clu2', opts=[], cfg_edit={'desolv_cutoff': '30.0', 'buried_cutoff': '22.0'}, cfg_path='shared.cfg'),
+        dict(name='shared-cfg-path-2', text='clu2', opts=[], cfg_edit={'coulomb_cutoff2': '12.0', 'sidechain_interaction': '1.0'}, cfg_path='shared.cfg'),
+        dict(name='zip-member-1', text='tri', opts=[], via_zip=True),
+        dict(name='zip-member-2', text='pair', opts=[], via_zip=True),
+        dict(name='tune-returned-parameters', text='nterm', opts=[], tune_after=True),
     ]
     if tier == 'thorough':
         ops += [
@@ -111,8 +118,8 @@ def execute(op, mode='stream'):
                 fh.write(c02.cfg_variants()[tuple(op['cfg'])])
         opts += ['-p', path]
     if 'cfg_edit' in op:
-        path = os.path.abspath('edited_%s.cfg' % op['name'])
-        if not os.path.exists(path):
+        path = os.path.abspath(op.get('cfg_path') or 'edited_%s.cfg' % op['name'])
+        if op.get('cfg_path') or not os.path.exists(path):
             lines = []
             for ln in c02.cfg_variants()[(1, 0, 0)].splitlines(True):
                 w = ln.split()
@@ -148,7 +155,20 @@ def execute(op, mode='stream'):
                 out[nm] = pk.strip_date(fh.read())
             os.unlink(nm[:-4] + '.pka')
         return dict(main=out)
-    if mode == 'stream':
+    if op.get('via_zip'):
+        import zipfile
+        with zipfile.ZipFile('archive.zip.new', 'w') as zf:      # the archive is replaced by a new file, the member keeps its name
+            zf.writestr('x.pdb', text)
+        os.replace('archive.zip.new', 'archive.zip')
+        saved_out = sys.stdout
+        sys.stdout = io.StringIO()
+        try:
+            mol = propka.run.single(os.path.join('archive.zip', 'x.pdb'), optargs=tuple(opts), write_pka=False)
+        finally:
+            sys.stdout = saved_out
+        mol.name = 'x'
+        mol._pka_text = pk.pka_text(mol)
+    elif mode == 'stream':
         mol = pk.run(text, opts, write=True)
     elif mode == 'path':
         with open('op_input.pdb', 'w') as fh:
@@ -163,6 +183,15 @@ def execute(op, mode='stream'):
             mol = propka.run.single('x.pdb', optargs=tuple(opts), stream=fh, write_pka=False)
         mol._pka_text = pk.pka_text(mol)
     rec = pk.record(mol, text=mol._pka_text)
+    if op.get('tune_after'):
+        # what a caller may do with the objects a finished calculation handed back
+        prm = mol.version.parameters
+        prm.model_pkas['HIS'] = 7.5
+        prm.model_pkas['ASP'] = 2.0
+        prm.ions['ZN'] = 5
+        prm.parse_line('sidechain_cutoffs default 1.0 2.0')
+        prm.parse_line('desolv_cutoff 11.0')
+        prm.acid_list.append('HIS')
     return dict(rec=rec)
 
 
@@ -265,6 +294,30 @@ def bfs(tier, nproc, acc):
                     nxt.append(h + [i])
         frontier = nxt
         depth += 1
+    # state the snapshot cannot see (caches held by C-level objects, open handles, the file system): every ordered pair of operations
+    # is executed in a fresh process whatever the state hash says (thorough: every ordered triple of a sub-alphabet as well)
+    done = set(tuple(states[k_]) for k_ in states)
+    seqs = [[i] for i in range(len(_OPS))]
+    if tier == 'thorough':
+        core = [i for i, o in enumerate(_OPS) if o['name'] in ('tripeptide', 'cluster-display', 'other-cutoffs', 'shared-cfg-path-1', 'shared-cfg-path-2',
+                                                               'zip-member-1', 'zip-member-2', 'tune-returned-parameters', 'main-two-files', 'ligand-LIG-amide')]
+        seqs += [[i, j] for i in core for j in core]
+    jobs = [(h, i, tier) for h in seqs for i in range(len(_OPS) if len(h) == 1 else 0)] + \
+           [(h, i, tier) for h in seqs if len(h) == 2 for i in [x for x, o in enumerate(_OPS) if x in h or o['name'] in ('tripeptide', 'cluster', 'zip-member-1')]]
+    if len(acc.viols) < 40:
+        with mp.Pool(min(nproc, len(jobs)), maxtasksperchild=1) as pool:
+            for res in pool.imap_unordered(_bfs_worker, jobs, chunksize=1):
+                transitions += 1
+                acc.n += 1
+                h, i = res['history'], res['op']
+                case = dict(kind='history', history=[_OPS[x]['name'] for x in h], op=_OPS[i]['name'], tier=tier)
+                acc.nontrivial.add(jhash(case))
+                if 'error' in res:
+                    acc.viols.append(Viol(case, 'history', 'operation-raises-after-history/%s' % _OPS[i]['name'], res['error'], detail=res.get('tb')))
+                elif res['diff']:
+                    acc.viols.append(Viol(case, 'history', 'result-depends-on-history/op=%s/after=%s' % (_OPS[i]['name'], _OPS[h[-1]]['name']),
+                                          'after %s: %s' % ([_OPS[x]['name'] for x in h], res['diff'])))
+    acc.extra['sequences_run_regardless_of_state_hash'] = len(jobs)
     closed = not frontier
     if len(states) > max_states:
         acc.notes.append('state space did not close within %d states: global state grows with every call' % max_states)
@@ -418,7 +471,7 @@ def plan(tier, seed):
     for i, op in enumerate(ops):
         for hs in ((0, 1, 2, 3) if tier == 'thorough' else (0, 3)):
             envs.append(dict(kind='env', op=i, hashseed=hs, cwd='flat', mode='stream'))
-        if 'main' not in op:
+        if 'main' not in op and not op.get('via_zip'):
             envs.append(dict(kind='env', op=i, hashseed=1, cwd='nested', mode='path'))
             envs.append(dict(kind='env', op=i, hashseed=2, cwd='flat', mode='textfile'))
             if 'cfg' not in op and 'cfg_edit' not in op:
@@ -428,7 +481,7 @@ def plan(tier, seed):
     shards = [[c] for c in orders] + [envs[i:i + 2] for i in range(0, len(envs), 2)]
     return dict(shards=shards, exhaustive=True,
                 rule=('histories: BFS over %d operations (%s) from the pristine process image, state = by-value snapshot of all propka.* '
-                      'globals/class attributes/logger configuration, until closure; schedules: all k! iteration orders of the coupled '
+                      'globals/class attributes/logger configuration/cache sizes, until closure, plus every ordered pair of operations whatever the state hash says; schedules: all k! iteration orders of the coupled '
                       'groups of %d inputs (k <= 5; clusters default and -d, covalently coupled ligand/N-terminal systems under 5 '
                       'parameter toggles); environment: every operation in fresh interpreters with hash seeds %s, nested cwd + path input, '
                       'text-file stream, host logging configured at INFO/DEBUG or disabled. non-trivial = distinct (history, operation) transitions + inputs with a coupled system + '
